@@ -40,6 +40,13 @@ C = dict(
              simulate={"quick": 20, "thorough": 700}, depth=12, cap={"quick": 70, "thorough": 1000}),
     ],
     directed="plans/C11.jsonl",
+    # end to end with the REAL channel manager (driver ckpt): a task whose start failed after the manager had registered its
+    # collection (a stream that cannot be opened) is paused with everything released - once the fault is gone, resuming it works
+    # (Ckpt_Trace PROP=C11, clause ResumeWorks)
+    more_drivers=["ckpt"],
+    driver_of=lambda p: "ckpt" if p.get("driver") == "ckpt" else "lifecycle",
+    trace_of=lambda p: (("Ckpt_Trace", "Ckpt_Trace.cfg", {"PROP": "C11"}) if p.get("driver") == "ckpt"
+                        else ("TaskLifecycle_Trace", "TaskLifecycle_Trace.cfg", {})),
     trace=("TaskLifecycle_Trace", "TaskLifecycle_Trace.cfg"),
     death="violation",
     driver_timeout=1500, validate_timeout=1500,
